@@ -80,6 +80,11 @@ def handle (s : S) (i : Nat) (j : Json) : S × List Json :=
       (match res.find? (fun r => rejected.isEmpty && (r.2.1.bal != (((o.find? (fun e => e.1 == r.1)).map (·.2.bal)).getD 0))) with
        | some r => [verdictDiff i "masterchefBalance" (Json.mkObj [("denom", r.1), ("val", mkInt r.2.1.bal)]) (Json.mkObj [("val", mkInt (((o.find? (fun e => e.1 == r.1)).map (·.2.bal)).getD 0))])]
        | none => [])
+    -- the list of reward denoms the hooks walk is the model's function of (base currency, Eden switch, external denoms)
+    let diffs := diffs ++ (match st.obs.rewardDenomLists.find? (fun l => rewardDenoms l.base l.edenOn l.ext != l.keys) with
+       | some l => [verdictDiff i "rewardDenoms" (Json.mkObj [("pool", Json.num l.pool), ("keys", Json.arr ((rewardDenoms l.base l.edenOn l.ext).map Json.str).toArray)])
+                      (Json.mkObj [("keys", Json.arr (l.keys.map Json.str).toArray)])]
+       | none => [])
     let viols :=
       -- "the total credited for a block never exceeds what was collected or funded for that block"
       (if rejected.any (fun r => (r.splitOn "overCredit").length > 1 || (r.splitOn "noReserve").length > 1) then
